@@ -75,7 +75,7 @@ Theorem c06_accept_iff_coercible_partial : forall S reparse vds ms,
     json_nodup (JObj ms) = true ->
     vars_nodup vds = true ->
     no_upload_ref S vds = true ->
-    forallb (var_default_ok go_quirks S weak_strict) vds = true ->
+    forallb (var_default_ok S weak) vds = true ->
     normalise go_quirks S reparse vds ms <> NFuel ->
     (accepts go_quirks S reparse vds (JObj ms) = true <-> coercible_all weak S vds (JObj ms) = true).
 Proof. exact accept_iff_coercible_partial_proof. Qed.
@@ -97,7 +97,7 @@ Theorem c06_accept_iff_coercible_repaired : forall S reparse vds ms,
     json_nodup (JObj ms) = true ->
     vars_nodup vds = true ->
     no_upload_ref S vds = true ->
-    forallb (var_default_ok no_quirks S std_strict) vds = true ->
+    forallb (var_default_ok S std) vds = true ->
     normalise no_quirks S reparse vds ms <> NFuel ->
     (accepts no_quirks S reparse vds (JObj ms) = true <-> coercible_all std S vds (JObj ms) = true).
 Proof. exact accept_iff_coercible_repaired_proof. Qed.
